@@ -57,8 +57,6 @@ def known_block_defect(blocks, o):
         return 'KF-C03-setext-in-quote'
     if empty_nested_item_then_more(blocks):
         return 'KF-C03-blank-after-empty-nested-item'
-    if later_item_starts_with_table(blocks):
-        return 'KF-C03-later-item-starts-with-table'
     return None
 
 
